@@ -114,6 +114,19 @@ func runHistory(r *core.Run, cid string, L int) {
 				}
 				m.checkAll("ack")
 			}
+		case x < 97:
+			// governance replaces or upgrades the client of one path: commitments and counters are not its business
+			a, b := s.RandNodePair()
+			gov := s.ToggleRoundTrip
+			if rng.Intn(2) == 0 {
+				gov = s.UpgradeClient
+			}
+			if err := gov(a, b); err != nil {
+				r.Inconclusive("%s: client toggle / upgrade failed: %v", cid, err)
+				return
+			}
+			r.Count("client_toggles_and_upgrades", 1)
+			m.checkAll("client toggle / upgrade")
 		default:
 			s.W.Roll(s.W.Nodes[rng.Intn(len(s.W.Nodes))])
 		}
